@@ -805,6 +805,105 @@ where
 
 
 // ---------------------------------------------------------------------------------------------
+// bigsimple <dt> <level> <order> <gcds> <kind> <n> <seed>: Compressor::simple_compress (which splits the input into
+// chunks of DEFAULT_CHUNK_SIZE numbers) on inputs longer than one chunk, decoded by auto_decompress
+//   -> ok rt=<0|1> len=<decoded length> n=<n> size=<bytes>
+
+fn cmd_bigsimple<T: Ty>(args: &[&str]) -> String
+where
+  T::Signed: Ty,
+{
+  let level: usize = args[0].parse().unwrap();
+  let order: usize = args[1].parse().unwrap();
+  let gcds = args[2] == "1";
+  let kind = args[3];
+  let n: usize = args[4].parse().unwrap();
+  let mut seed: u64 = args[5].parse().unwrap();
+  let w = T::PHYSICAL_BITS.min(64) as u32;
+  let mask: u128 = if T::PHYSICAL_BITS == 8 { 1 } else { (1u128 << w) - 1 };
+  let mut nums: Vec<T> = Vec::with_capacity(n);
+  for i in 0..n {
+    let pat = match kind {
+      "uniform" => splitmix(&mut seed) as u128 & mask,
+      "smooth" => ((i as u128) * 3 + (splitmix(&mut seed) % 3) as u128) & mask & (mask >> 1),
+      "sparse" => if splitmix(&mut seed) % 50 == 0 { (splitmix(&mut seed) as u128 & mask).max(1) } else { 0 },
+      _ => return "bad-kind".to_string(),
+    };
+    nums.push(T::from_pat(pat));
+  }
+  let config = CompressorConfig::default()
+    .with_compression_level(level)
+    .with_delta_encoding_order(order)
+    .with_use_gcds(gcds);
+  let bytes = Compressor::<T>::from_config(config).simple_compress(&nums);
+  let (rt, len) = match q_compress::auto_decompress::<T>(&bytes) {
+    Ok(v) => ((v.len() == nums.len() && v.iter().zip(nums.iter()).all(|(a, b)| a.to_pat() == b.to_pat())) as u8, v.len()),
+    Err(_) => (0, 0),
+  };
+  format!("ok rt={} len={} n={} size={}", rt, len, n, bytes.len())
+}
+
+// ---------------------------------------------------------------------------------------------
+// bigspread <dt> <level> <n_bulk> <n_spike_values> <spike_reps> <lone_reps> <seed>: one chunk with an extreme spread of
+// range weights — a uniform bulk over almost the whole type, a few hundred heavily repeated small values sprinkled
+// through it, one lone smallest value followed (in sorted order) by a long run of a single value — sizes only
+//   -> ok n=<n> body=<bytes> total=<bytes> nprefs=<k> maxcode=<bits> rt=<0|1>
+
+fn cmd_bigspread<T: Ty>(args: &[&str]) -> String
+where
+  T::Signed: Ty,
+{
+  let level: usize = args[0].parse().unwrap();
+  let n_bulk: usize = args[1].parse().unwrap();
+  let n_spike_values: usize = args[2].parse().unwrap();
+  let spike_reps: usize = args[3].parse().unwrap();
+  let lone_reps: usize = args[4].parse().unwrap();
+  let mut seed: u64 = args[5].parse().unwrap();
+  let w = T::PHYSICAL_BITS.min(64) as u32;
+  let mask: u128 = (1u128 << w) - 1;
+  let mut nums: Vec<T> = Vec::with_capacity(n_bulk + n_spike_values * spike_reps + lone_reps + 1);
+  let spikes: Vec<u128> = (0..n_spike_values).map(|_| 1000 + (splitmix(&mut seed) % 1_000_000) as u128).collect();
+  let n_spikes = n_spike_values * spike_reps;
+  let stride = std::cmp::max(1, n_bulk / std::cmp::max(1, n_spikes));
+  let mut spike_idx = 0;
+  for i in 0..n_bulk {
+    let mut x = splitmix(&mut seed) as u128 & mask;
+    while x < (1 << 20) {
+      x = splitmix(&mut seed) as u128 & mask;
+    }
+    nums.push(T::from_pat(x));
+    if i % stride == 0 && spike_idx < n_spikes {
+      nums.push(T::from_pat(spikes[spike_idx % n_spike_values]));
+      spike_idx += 1;
+    }
+  }
+  nums.push(T::from_pat(0));
+  for _ in 0..lone_reps {
+    nums.push(T::from_pat(500));
+  }
+  let config = CompressorConfig::default().with_compression_level(level);
+  let mut c = Compressor::<T>::from_config(config);
+  if let Err(e) = c.header() {
+    return format!("err {}", kind_str(&e));
+  }
+  let meta = match c.chunk(&nums) {
+    Ok(m) => m,
+    Err(e) => return format!("err {}", kind_str(&e)),
+  };
+  c.footer().unwrap();
+  let bytes = c.drain_bytes();
+  let (nprefs, maxcode) = match &meta.prefix_metadata {
+    PrefixMetadata::Simple { prefixes } => (prefixes.len(), prefixes.iter().map(|p| p.code.len()).max().unwrap_or(0)),
+    PrefixMetadata::Delta { prefixes, .. } => (prefixes.len(), prefixes.iter().map(|p| p.code.len()).max().unwrap_or(0)),
+  };
+  let rt = match q_compress::auto_decompress::<T>(&bytes) {
+    Ok(v) => (v.len() == nums.len() && v.iter().zip(nums.iter()).all(|(a, b)| a.to_pat() == b.to_pat())) as u8,
+    Err(_) => 0,
+  };
+  format!("ok n={} body={} total={} nprefs={} maxcode={} rt={}", nums.len(), meta.compressed_body_size, bytes.len(), nprefs, maxcode, rt)
+}
+
+// ---------------------------------------------------------------------------------------------
 // bigfmt <dt> <level> <order> <gcds> <v*len,v*len,...>: one chunk given as runs (too long for a request line), compressed
 // through the chunk API; answers the bytes and a digest of the input (h = h*31 + pattern + 1 mod 2^61-1) so that an
 // independent decoder can be compared without shipping the numbers
@@ -1109,6 +1208,8 @@ fn answer(line: &str) -> String {
       "bigrt" => dispatch!(toks[1], cmd_bigrt, &toks[2..]),
       "bigauto" => dispatch!(toks[1], cmd_bigauto, &toks[2..]),
       "bigfmt" => dispatch!(toks[1], cmd_bigfmt, &toks[2..]),
+      "bigsimple" => dispatch!(toks[1], cmd_bigsimple, &toks[2..]),
+      "bigspread" => dispatch!(toks[1], cmd_bigspread, &toks[2..]),
       "ts" => cmd_ts(&toks[1..]),
       "consts" => cmd_consts(),
       "floatfns" if toks.len() > 3 && toks[1] == "runlen" => runlen_public(toks[2].parse().unwrap(), toks[3].parse().unwrap()),
